@@ -992,6 +992,12 @@ class Family:
                                  self.groups(1), ("else", self.groups(1))))
         yield Prog(b.ident("complex_experiment"), b.string("salt"), [b.ident("user_id"), shared], body,
                    "README complete example (shared splitter/condition)")
+        # conditions that read the splitters in an order other than the alphabetical one (and not the first one only)
+        acc, plan, seat = b.ident("account_id"), b.ident("plan"), b.ident("seat")
+        yield Prog(b.ident("e_order"), b.string("salt"), [seat, acc, plan],
+                   ("if", [("cmp", "KW_EQ", ("id", seat), ("lit", b.integer(), False)), "or",
+                           ("cmp", "KW_EQ", ("id", plan), ("lit", b.string(), False))], self.groups(2), ("else", self.groups(1))),
+                   "conditions read later-sorted splitters first")
         only = b.ident("only_field")
         yield Prog(b.ident("e2"), None, [only],
                    ("if", [("cmp", "KW_GT", ("id", only), ("lit", b.integer(), False))], self.groups(1), None),
